@@ -24,6 +24,9 @@ type c04Ev struct {
 	ID   int    `json:"id"`
 	Dup  bool   `json:"dup,omitempty"`
 	Auth bool   `json:"auth,omitempty"`
+	// rel, v5: the PUBREL carries reason code 0x92 "packet identifier not found" (the only other one it may carry): it is
+	// a PUBREL like any other to the receiver
+	R92 bool `json:"r92,omitempty"`
 }
 
 type c04Case struct {
@@ -66,7 +69,7 @@ func (p *c04Prop) Gen(r *Rng, i int, tier string) interface{} {
 	for k := 0; k < n; k++ {
 		var e c04Ev
 		if r.Chance(35) {
-			e = c04Ev{K: "rel", ID: pool[r.Intn(len(pool))]}
+			e = c04Ev{K: "rel", ID: pool[r.Intn(len(pool))], R92: r.Chance(20)}
 		} else {
 			q := []int{0, 1, 2, 2, 2}[r.Intn(5)]
 			e = c04Ev{K: "pub", QoS: q, ID: pool[r.Intn(len(pool))], Auth: !r.Chance(12)}
@@ -158,7 +161,11 @@ func (p *c04Prop) Run(ci interface{}) interface{} {
 		for k, e := range c.Evs {
 			var pkt mqttp.IFace
 			if e.K == "rel" {
-				pkt = mkAck(ver, mqttp.PUBREL, uint16(e.ID))
+				a := mkAck(ver, mqttp.PUBREL, uint16(e.ID))
+				if e.R92 && c.V5 {
+					a.SetReason(mqttp.CodePacketIDNotFound)
+				}
+				pkt = a
 			} else {
 				m := mqttp.NewPublish(ver)
 				_ = m.Set("ok/t", []byte{byte(k + 1)}, mqttp.QosType(e.QoS), false, e.Dup)
@@ -226,7 +233,11 @@ func (p *c04Prop) Run(ci interface{}) interface{} {
 		st := c04Step{Resp: [][3]int{}, Fwd: []int{}}
 		var pkt mqttp.IFace
 		if e.K == "rel" {
-			pkt = mkAck(ver, mqttp.PUBREL, uint16(e.ID))
+			a := mkAck(ver, mqttp.PUBREL, uint16(e.ID))
+			if e.R92 && c.V5 {
+				a.SetReason(mqttp.CodePacketIDNotFound)
+			}
+			pkt = a
 		} else {
 			topic := "ok/t"
 			if !e.Auth {
